@@ -131,26 +131,46 @@ class Run(RunBase):
         val = self.eval_pristine(ref, k, mode)
         self.nref += 1
         if self.nref % 16 == 1:
-            # oracle audit: recompute on a brand-new object; must agree to 1e-12
-            fresh = self.wd.construct(self.N, self.NGF)
-            val2 = self.eval_pristine(fresh, k, mode)
-            self.probes["oracle-audit"] += 1
-            if val[0] != val2[0] or (val[0] == "ok" and not self.same(val[1], val2[1], 1e-12)):
-                from simkit.core import HarnessError
-                raise HarnessError("oracle audit failed: the reference calculator is history dependent "
-                                   "(world {}, input {}, mode {})".format(self.w["class"], k, mode))
+            self.audit(k, mode, val)
         self.refmemo[key] = val
         return val
 
+    def audit(self, k, mode, val):
+        """Oracle audit. (a) Replayable part, a violation of C14 in its own right: a brand-new calculator that
+        has answered another input first must answer input k exactly like a second brand-new calculator that
+        has not. (b) The per-worker reference (which has a long history of other runs behind it) must agree
+        with the brand-new one; if only (b) fails the harness has a leak and says so (exit 2, never silent)."""
+        self.probes["oracle-audit"] += 1
+        f1 = self.wd.construct(self.N, self.NGF)
+        other = (k + 1) % len(self.pool)
+        self.eval_pristine(f1, other, "default")
+        v1 = self.eval_pristine(f1, k, mode)
+        f2 = self.wd.construct(self.N, self.NGF)
+        v2 = self.eval_pristine(f2, k, mode)
+        if v1[0] != v2[0] or (v1[0] == "ok" and not self.same(v1[1], v2[1], 1e-12)):
+            self.fail("pristine-history-dependent",
+                      "a new calculator that evaluated input {} first answers input {} [{}] (mode {}) differently "
+                      "from a new calculator that did not (cache emptied in between)".format(
+                          other, k, self.pool.kind(k), mode))
+        if val[0] != v2[0] or (val[0] == "ok" and not self.same(val[1], v2[1], 1e-12)):
+            from simkit.core import HarnessError
+            raise HarnessError("oracle audit failed: the per-worker reference calculator disagrees with a brand-new "
+                               "one (world {}, input {}, mode {})".format(self.w["class"], k, mode))
+
+    @staticmethod
+    def empty_cache(calc):
+        # harness-side reset: the reference must not depend on the SUT's own clearcache()
+        calc.GFvalues, calc.Lvvvalues, calc.etavvalues = {}, {}, {}
+
     def eval_pristine(self, ref, k, mode):
-        ref.clearcache()
+        self.empty_cache(ref)
         arrs = self.pool.arrays(ref, k)
         try:
             out = ref.Lij(*arrs, **OM2[mode])
         except Exception as e:   # the same input must then fail the same way on the SUT
             return ("exc", type(e).__name__)
         finally:
-            ref.clearcache()
+            self.empty_cache(ref)
         return ("ok", [np.array(t, dtype=float, copy=True) for t in out])
 
     @staticmethod
@@ -170,41 +190,50 @@ class Run(RunBase):
     # ------------------------------------------------------------------ generator
     def propose(self, rng):
         npool = len(self.pool)
-        x = rng.random()
         c13 = self.prop == "C13"
-        if c13 and self.twin is None:
-            if rng.random() < 0.5:
-                return self.gen_fork(rng)
-        if x < 0.42:
+        if c13 and self.twin is None and rng.random() < 0.5:
+            return self.gen_fork(rng)
+        # op kind by weight (swarm: the per-run weights are jittered by the world's mix seed)
+        if c13:
+            table = (("call", 34), ("scribble", 8), ("clearcache", 4), ("regen", 8), ("regrid", 5), ("foreign", 5),
+                     ("badcall", 4), ("fork", 10), ("refork", 5), ("supercells", 4), ("component", 13))
+        else:
+            table = (("call", 40), ("scribble", 12), ("clearcache", 5), ("regen", 9), ("regrid", 5), ("foreign", 5),
+                     ("badcall", 5), ("save", 10), ("restart", 9))
+        mix = random.Random(self.w["pool_seed"] ^ 0x5eed)
+        weights = [wt * mix.choice((0.3, 1.0, 1.0, 2.0)) for _, wt in table]
+        kind = rng.choices([k for k, _ in table], weights=weights)[0]
+        if kind == "call":
             via = "buffers" if (self.w["buffers"] and rng.random() < 0.7) else "fresh"
             return {"op": "call", "k": rng.randrange(npool), "om2": rng.choice(("default", "default", "small", "large")),
                     "via": via}
-        if x < 0.54:
+        if kind == "scribble":
             return {"op": "scribble", "ret": rng.randrange(max(1, len(self.caller.rets))), "how": rng.choice(SCRIBBLES),
                     "x": rng.choice((2.0, -1.0, 0.5, 1e3))}
-        if x < 0.60:
+        if kind == "clearcache":
             return {"op": "clearcache"}
-        if x < 0.67:
+        if kind == "regen":
             if len(self.w["ranges"]) > 1:
                 return {"op": "regen", "N": rng.choice(self.w["ranges"])}
-            return {"op": "clearcache"}
-        if x < 0.72:
+            return {"op": "regen", "N": self.w["ranges"][0]}
+        if kind == "regrid":
             return {"op": "regrid", "n": rng.choice(self.w["grids"])}
-        if x < 0.77:
+        if kind == "foreign":
             return {"op": "foreign", "k": rng.randrange(npool), "pt": rng.randrange(16)}
-        if x < 0.82:
+        if kind == "badcall":
             return {"op": "badcall", "k": rng.randrange(npool), "kind": rng.choice(BADKINDS)}
-        if c13:
-            y = rng.random()
-            if y < 0.45:
-                return self.gen_fork(rng)
-            if y < 0.6:
-                return {"op": "refork", "slot": rng.choice("abc"), "libver": rng.choice(("earliest", "latest")),
-                        "driver": rng.choice(("fileobj", "core")), "keep_open": rng.random() < 0.3}
-            if y < 0.7 and self.dim == 3:
+        if kind == "fork":
+            return self.gen_fork(rng)
+        if kind == "refork":
+            return {"op": "refork", "slot": rng.choice("abc"), "libver": rng.choice(("earliest", "latest")),
+                    "driver": rng.choice(("fileobj", "core")), "keep_open": rng.random() < 0.3}
+        if kind == "supercells":
+            if self.dim == 3:
                 return {"op": "supercells", "n": rng.choice((2, 3))}
             return {"op": "component", "what": rng.choice(COMPONENTS), "arg": rng.randrange(1 << 16)}
-        if x < 0.91:
+        if kind == "component":
+            return {"op": "component", "what": rng.choice(COMPONENTS), "arg": rng.randrange(1 << 16)}
+        if kind == "save":
             return {"op": "save", "slot": rng.choice("abc"), "mode": rng.choice(("new", "append", "overwrite")),
                     "libver": rng.choice(("earliest", "latest")), "driver": rng.choice(("fileobj", "fileobj", "core"))}
         return {"op": "restart", "slot": rng.choice("abc"), "group": rng.randrange(4), "keep_open": rng.random() < 0.3}
@@ -615,9 +644,9 @@ class Run(RunBase):
             T = PowerExpansion.Taylor3D if self.dim == 3 else PowerExpansion.Taylor2D
             t = tj[arg % len(tj)]
             t2 = self.roundtrip(t.addhdf5, T.loadhdf5)
-            if len(t.coefflist) != len(t2.coefflist) or any(
-                    a[0] != b[0] or a[1] != b[1] or not np.array_equal(a[2], b[2])
-                    for a, b in zip(t.coefflist, t2.coefflist)):
+            da = {(int(n), int(l)): c for n, l, c in t.coefflist}
+            db = {(int(n), int(l)): c for n, l, c in t2.coefflist}
+            if sorted(da) != sorted(db) or any(not np.array_equal(da[k], db[k]) for k in da):
                 self.fail("component-taylor", "coefficients differ after reload")
             u = np.array([rnd.uniform(-1, 1) for _ in range(self.dim)])
             fn = {(n, l): (lambda x, n=n: x ** n) for (n, l) in t.nl()}
@@ -663,7 +692,7 @@ class Run(RunBase):
         elif what == "yaml:pairstate":
             st = calc.kinetic.states[rnd.randrange(calc.kinetic.Nstates)]
             s2 = rt(st)
-            if s2 != st or hash(s2) != hash(st) or not np.array_equal(s2.dx, st.dx) or not np.array_equal(s2.R, st.R):
+            if s2 != st or hash(s2) != hash(st) or not np.allclose(s2.dx, st.dx, rtol=0, atol=1e-12) or not np.array_equal(s2.R, st.R):
                 self.fail("yaml-pairstate", "PairState {} differs after YAML round trip: {}".format(st, s2))
         elif what in ("yaml:clustersite", "yaml:cluster"):
             if not hasattr(self, "_clusters"):
